@@ -252,8 +252,11 @@ func (fx *FnCtx) oblige(kind, name string, st *State, cond T, pos token.Pos, cla
 		o.Result = SolverResult{Status: "unsat", Solver: "trivial"}
 	}
 	fx.obls = append(fx.obls, o)
-	// later obligations may assume this one
-	fx.assume(st.guard, cond)
+	// later obligations may assume this one (not the limits of an assumed
+	// contract's model: those are not facts about the program)
+	if kind != "model" {
+		fx.assume(st.guard, cond)
+	}
 	return o
 }
 
